@@ -689,7 +689,7 @@ func c08StmtForms() []string {
 		"a .. b", "a == b", "f()", "a:m()", "f{}", "f''", "(a)", "((a))", "[[s]]", "0x10", "a and f()", "f().x", "f()[1]"}
 	wraps := []string{"%s", "(%s)", "((%s))", "(%s)()", "(%s).x", "(%s).x = 1", "(%s)[1] = 2", "(%s):m()", "(%s) = 1", "%s = 1", "%s, %s = 1, 2",
 		"(%s), a = 1, 2", "local x = (%s) (%s)", "(%s) 'lit'", "(%s) {}"}
-	ctxs := []string{"%s", "do %s end", "function g(...) %s end", "local function g(...) %s end", "if a then %s end", "if a then else %s end", "while a do %s end",
+	ctxs := []string{"%s", "do %s end", "function g(...) %s end", "local function g(...) %s end", "function g(p) %s end", "return function() return function(q) %s end end", "if a then %s end", "if a then else %s end", "while a do %s end",
 		"repeat %s until a", "for i = 1, 2 do %s end", "for k in f() do %s end", "%s ; %s", "%s %s", "::l:: %s goto l", "return function(...) %s end"}
 	var out []string
 	for _, e := range exprs {
@@ -740,7 +740,7 @@ func runC08(run *Run) {
 		nBytes, nSoup, nMut, nProg, nTrunc, nNum, nFile = 150000, 150000, 120000, 6000, 300, 40000, 3000
 		deepSizes = []int{10, 199, 250, 2000, 10000}
 	}
-	run.Rule = "inputs: random bytes, token soup (valid and malformed lexemes incl. every blank/line-end/comment form), generated valid programs in 13 layouts each (canonical, minimal-separator, CRLF, CR, LFCR, random blanks+comments+semicolons, redundant parentheses, alternative literal spellings, all combined, and the two-byte-line-end layouts shifted so that a CR LF / LF CR pair straddles the scanner's 4096-byte read-ahead buffer), byte-level mutations and truncations of those, every prefix of selected programs, 5880 statement forms (expression form × statement wrapper × block context), 338 goto/label forms (placement × surrounding blocks and locals), numerals, nesting up to depth 10^4 (thorough; 2000 quick), LoadFile with '#' first lines, the repository's .lua files. Each input: real LoadString under recover+timeout (panic/timeout = violation), real token stream vs the Lean scanner model (exact incl. line/column/PNewLine/error), vs the Lua 5.1 lexical grammar (Spec); layouts of one program: instruction-identical protos modulo line tables and identical emit traces (Impl vs Impl). distinct = distinct op-kind skeletons of cases with >= 3 ops"
+	run.Rule = "inputs: random bytes, token soup (valid and malformed lexemes incl. every blank/line-end/comment form), generated valid programs in 13 layouts each (canonical, minimal-separator, CRLF, CR, LFCR, random blanks+comments+semicolons, redundant parentheses, alternative literal spellings, all combined, and the two-byte-line-end layouts shifted so that a CR LF / LF CR pair straddles the scanner's 4096-byte read-ahead buffer), byte-level mutations and truncations of those, every prefix of selected programs, 6720 statement forms (expression form × statement wrapper × block context), 338 goto/label forms (placement × surrounding blocks and locals), numerals, nesting up to depth 10^4 (thorough; 2000 quick), LoadFile with '#' first lines, the repository's .lua files. Each input: real LoadString under recover+timeout (panic/timeout = violation), real token stream vs the Lean scanner model (exact incl. line/column/PNewLine/error), vs the Lua 5.1 lexical grammar (Spec); layouts of one program: instruction-identical protos modulo line tables and identical emit traces (Impl vs Impl). distinct = distinct op-kind skeletons of cases with >= 3 ops"
 	run.Assume = []string{
 		"bufio.Reader: ReadByte/UnreadByte deliver the bytes of the input in order (modelled as a list of bytes)",
 		"the goyacc table driver and the compiler are not modelled: their outcome is observed on the real code only (panic/timeout detection, layout invariance Impl vs Impl)",
